@@ -80,7 +80,7 @@ BENIGN = {
     ),
 }
 
-MIN_SITES = 24  # set-typed sites analysed today: 37 (sources + uses); a vanished one is fine, a vacuous run is not
+MIN_SITES = 36  # set-typed sites analysed today: 52 (+1 fixture line); a vanished one is fine, a vacuous run is not
 
 # attributes of external libraries that are sets (sympy: Expr.free_symbols is a set of Symbols, hashed by name)
 EXTERNAL_SET_ATTRS = {"free_symbols"}
@@ -1040,7 +1040,12 @@ def run_alias(repo, chk):
     else:
         chk.instance("B-alias", "add_particle: %s" % " -> ".join(names))
     gp_call = [n for d, n in order if d == "get_particle"]
-    if gp_call and not any(k.arg is None and isinstance(k.value, ast.Name) and k.value.id == "params" for k in gp_call[0].keywords):
+    renamed = {
+        n.targets[0].id for n in walk_local(gds.node)
+        if isinstance(n, ast.Assign) and len(n.targets) == 1 and isinstance(n.targets[0], ast.Name)
+        and isinstance(n.value, ast.Call) and dotted(n.value.func) == "self.rename_params"
+    }
+    if gp_call and not any(k.arg is None and isinstance(k.value, ast.Name) and k.value.id in renamed for k in gp_call[0].keywords):
         chk.violation("B-alias", gds.key, "get_particle(**params)", "the renamed parameters are not passed to get_particle as **params", file=DEC, line=gp_call[0].lineno)
     # b3 every alias target is read by name by the constructors
     ctor = ctor_param_chain(repo, CORE + "::Particle", PART + "::BaseParticle.__init__")
@@ -1085,7 +1090,14 @@ def run_alias(repo, chk):
     apc = repo.fn(LOADER + "::ConfigLoader.add_particle_constraints")
     prefix_map = {k: const_value(v) for k, v in dict_literal(find_assign(apc, "prefix_map").value, "prefix_map").items()}
     simple_map = {k: const_value(v) for k, v in dict_literal(find_assign(apc, "simple_map").value, "simple_map").items()}
-    attrs_read = {n.attr for n in walk_local(apc.node) if isinstance(n, ast.Attribute) and isinstance(n.value, ast.Name) and n.value.id == "p_i"}
+    # attributes read on the loop variable that iterates `<chain>.inner` (the resonance object)
+    res_vars = {
+        n.target.id for n in walk_local(apc.node)
+        if isinstance(n, ast.For) and isinstance(n.target, ast.Name) and isinstance(n.iter, ast.Attribute) and n.iter.attr == "inner"
+    }
+    if not res_vars:
+        raise AnalysisError("add_particle_constraints no longer loops over `<chain>.inner`")
+    attrs_read = {n.attr for n in walk_local(apc.node) if isinstance(n, ast.Attribute) and isinstance(n.value, ast.Name) and n.value.id in res_vars}
     for a, t in sorted(prefix_map.items()):
         if a in pkm:
             chk.instance("B-alias", "prefix_map[%r] = %r agrees with particle_key_map[%r] = %r" % (a, t, a, pkm[a]))
@@ -1104,16 +1116,30 @@ def run_alias(repo, chk):
         if a not in prefix_map:
             chk.violation("B-alias", apc.key, "prefix_map:%s" % a, "prefix_map no longer knows the documented alias %r" % a, file=LOADER, line=apc.lineno)
     for a, t in sorted(simple_map.items()):
-        chk.instance("B-alias", "simple_map[%r] = %r ; p_i.%s read by the constraint code: %s" % (a, t, t, t in attrs_read))
+        chk.instance("B-alias", "simple_map[%r] = %r ; <resonance>.%s read by the constraint code: %s" % (a, t, t, t in attrs_read))
         if t not in pkm.values() or t not in attrs_read:
             chk.violation("B-alias", apc.key, "simple_map:%s" % a, "simple_map target %r is not the attribute the constraint code reads (%s)" % (t, sorted(attrs_read & {"mass", "width"})), file=LOADER, line=apc.lineno)
     for t in ("mass", "width"):
         if t not in attrs_read:
-            chk.violation("B-alias", apc.key, "p_i.%s" % t, "add_particle_constraints no longer reads p_i.%s" % t, file=LOADER, line=apc.lineno)
-    # the prefix loop: name2 = prefix_map[prefix_i] + name[len(prefix_i):]
-    txt = [norm_text(n) for n in walk_local(apc.node) if isinstance(n, ast.Assign)]
-    if not any(t.replace(" ", "") == "name2=prefix_map[prefix_i]+name[len(prefix_i):]" for t in txt):
-        chk.violation("B-alias", apc.key, "prefix-rewrite", "the prefix rewrite `name2 = prefix_map[prefix_i] + name[len(prefix_i):]` changed shape", file=LOADER, line=apc.lineno)
+            chk.violation("B-alias", apc.key, "resonance.%s" % t, "add_particle_constraints no longer reads the resonance's .%s" % t, file=LOADER, line=apc.lineno)
+    # the prefix rewrite:  <new> = prefix_map[<p>] + <name>[len(<p>):]   (structural, names free)
+    def _is_rewrite(v):
+        if not (isinstance(v, ast.BinOp) and isinstance(v.op, ast.Add)):
+            return False
+        l, r = v.left, v.right
+        if not (isinstance(l, ast.Subscript) and isinstance(l.value, ast.Name) and l.value.id == "prefix_map" and isinstance(l.slice, ast.Name)):
+            return False
+        pvar = l.slice.id
+        if not (isinstance(r, ast.Subscript) and isinstance(r.slice, ast.Slice) and r.slice.upper is None):
+            return False
+        lo = r.slice.lower
+        return (
+            isinstance(lo, ast.Call) and isinstance(lo.func, ast.Name) and lo.func.id == "len"
+            and len(lo.args) == 1 and isinstance(lo.args[0], ast.Name) and lo.args[0].id == pvar
+        )
+
+    if not any(isinstance(n, ast.Assign) and _is_rewrite(n.value) for n in walk_local(apc.node)):
+        chk.violation("B-alias", apc.key, "prefix-rewrite", "the prefix rewrite `prefix_map[p] + name[len(p):]` changed shape", file=LOADER, line=apc.lineno)
     else:
         chk.instance("B-alias", "add_particle_constraints rewrites a prefixed key as prefix_map[prefix] + rest")
     chk.extra["particle_key_map"] = pkm
@@ -1239,7 +1265,8 @@ def run_export(repo, chk):
     # shape: {str(core): [str(out).., {options}]}  <-> _list2decay splits str / dict items
     l2d = repo.fn(DEC + "::DecayConfig._list2decay")
     has_dict_branch = any(
-        isinstance(n, ast.If) and isinstance(n.test, ast.Call) and norm_text(n.test) in ("isinstance(j, dict)",)
+        isinstance(n, ast.If) and isinstance(n.test, ast.Call) and isinstance(n.test.func, ast.Name) and n.test.func.id == "isinstance"
+        and len(n.test.args) == 2 and isinstance(n.test.args[1], ast.Name) and n.test.args[1].id == "dict"
         for n in walk_local(l2d.node)
     )
     chk.instance("C-key", "decay export appends one options dict to the daughters; _list2decay routes dict items to params: %s" % has_dict_branch)
@@ -1259,7 +1286,7 @@ def run_export(repo, chk):
     ad = repo.fn(DEC + "::DecayConfig.get_decay_struct.add_decay")
     ok = any(
         isinstance(c, ast.Call) and isinstance(c.func, ast.Name) and c.func.id == "get_decay"
-        and any(k.arg is None and isinstance(k.value, ast.Name) and k.value.id == "params" for k in c.keywords)
+        and any(k.arg is None and isinstance(k.value, ast.Name) and k.value.id in ad.all_param_names() for k in c.keywords)
         for c in walk_local(ad.node)
     )
     chk.instance("C-key", "add_decay passes the option dict on as get_decay(a, b, **params): %s" % ok)
@@ -1289,11 +1316,21 @@ def run_export(repo, chk):
             chk.violation("C-key", wg.key, "delegate:%s" % need, "the group export no longer includes %s" % need, file=PART, line=wg.lineno)
     # `$top` / `$finals` given as dicts are merged into the particle table by particle_item
     pi = repo.fn(DEC + "::DecayConfig.particle_item")
-    upd = [norm_text(c) for c in walk_local(pi.node) if isinstance(c, ast.Call) and norm_text(c.func) == "particle_property.update"]
-    chk.instance("C-key", "particle_item merges dict-valued $top/$finals into particle_property: %s" % upd)
-    for need in ("particle_property.update(top)", "particle_property.update(finals)"):
-        if need not in upd:
-            chk.violation("C-key", pi.key, need, "dict-valued `$top` / `$finals` (the export's form) are no longer merged into the particle table", file=DEC, line=pi.lineno)
+    popped = {}  # local name -> popped key
+    for n in walk_local(pi.node):
+        if isinstance(n, ast.Assign) and len(n.targets) == 1 and isinstance(n.targets[0], ast.Name) and isinstance(n.value, ast.Call):
+            c = n.value
+            if isinstance(c.func, ast.Attribute) and c.func.attr in ("pop", "get") and c.args and isinstance(const_value(c.args[0]), str):
+                popped[n.targets[0].id] = const_value(c.args[0])
+    merged = set()
+    for c in walk_local(pi.node):
+        if isinstance(c, ast.Call) and isinstance(c.func, ast.Attribute) and c.func.attr == "update" and len(c.args) == 1 and isinstance(c.args[0], ast.Name):
+            if c.args[0].id in popped:
+                merged.add(popped[c.args[0].id])
+    chk.instance("C-key", "particle_item merges dict-valued sections into the particle table: %s" % sorted(merged))
+    for need in ("$top", "$finals"):
+        if need not in merged:
+            chk.violation("C-key", pi.key, "merge:%s" % need, "a dict-valued `%s` (the export's form) is no longer merged into the particle table" % need, file=DEC, line=pi.lineno)
     # not exported: model / constructor-level options (INFO: outside 'chains and quantum numbers')
     pm = repo.cls(CORE + "::Particle").methods.get("__init__")
     if pm is not None:
